@@ -14,7 +14,7 @@ def main(tier, replay=None):
         dict(name="outcomes-senders", opts=[M, "msgs=verp+empty+dbl", "signals=0"], bounds="0,0,0,%d" % (2 if q else 4), total=4, deadline=1800),
         dict(name="lost-spawner-l1r1", opts=[M, "msgs=l1r1", "signals=0", "verdicts=KZDE", "reorder=2"], bounds="0,0,0,%d" % (2 if q else 4), total=4, deadline=1800),
         dict(name="lost-spawner-l2-r2", opts=[M, "msgs=l2+r2", "signals=0", "verdicts=KDE", "reorder=2"], bounds="0,0,0,3", total=3, tier="thorough", deadline=1800),
-        dict(name="stray-and-mangled-reports-l1r1", opts=[M, "msgs=l1r1", "signals=0", "verdicts=KZDghueOQ", "reorder=2"], bounds="0,0,0,%d" % (2 if q else 3), total=3, deadline=1800),
+        dict(name="stray-and-mangled-reports-l1r1", opts=[M, "msgs=l1r1", "signals=0", "verdicts=KZDghueOQkjzd", "reorder=2"], bounds="0,0,0,%d" % (2 if q else 3), total=3, deadline=1800),
         dict(name="crash-l1r1", opts=[M, "msgs=l1r1"], bounds="0,0,1,%d" % (1 if q else 2), total=2 if q else 3, deadline=1800),
         dict(name="two-crashes-l1r1", opts=[M, "msgs=l1r1", "signals=0"], bounds="0,0,2,0", total=2, tier="thorough", deadline=1800),
         dict(name="crash-l2-bounces", opts=[M, "msgs=l2", "signals=0"], bounds="0,0,1,%d" % (2 if q else 3), total=2 if q else 4, deadline=1800),
@@ -27,7 +27,7 @@ def main(tier, replay=None):
     res.rule = ("each execution is a complete history of the real qmail-send + qmail-clean (+ qmail-queue for injections and bounces) under the "
                 "virtual kernel with controller-scripted spawners and a virtual clock, run until the queue is empty with every unscripted "
                 "attempt answered success; deviations from that default are enumerated exhaustively up to the bound: which in-flight delivery "
-                "is answered and with K/Z/D/garbled/stray/mangled/oversized reports or the death of its spawner, TERM/ALRM/HUP at quiescent points (env), machine crash with every keep/lose pattern or "
+                "is answered and with K/Z/D/garbled/stray/mangled/oversized reports, reports arriving in two pieces, or the death of its spawner, TERM/ALRM/HUP at quiescent points (env), machine crash with every keep/lose pattern or "
                 "kill of qmail-send before every filesystem-mutating call of qmail-send/qmail-clean (crash), one failing call or the queue program started for a bounce exiting 31 (permanent refusal) / 53 at once (fault); "
                 "monitors: a D mark only after a K/D report, recipient lists removed only when all done, info removed only when every "
                 "recipient was delivered or named in a queued bounce, queue drains; states = distinct (history, final queue tree)")
